@@ -27,6 +27,9 @@ CLAIMED = {
  "C01": ("finite predicate abstraction: path enumeration over SSA with uninterpreted terms, three-valued comparison with the specification predicate",
          "Decides the accept/reject decision of Ed25519 verification as a Boolean function of the admission predicates (length, S<L test, decoding, small-order and canonicity tests of A and R) and the five option flags, for all flag combinations, all variants (pure/ctx/ph) and all predicate outcomes: every path of verifyWithOptionsNoPanic (helpers inlined, ~900 feasible paths) must yield exactly the class (option error / reject / cofactored equation / cofactorless comparison) the specification formula gives for the conditions the path tested, evaluated in Kleene logic so that a dropped or weakened test is found on the paths that no longer consult it. On accepting paths the returned term must be the specified equation with the specified operand roles (k from the 64-byte digest, -A, S from sig[32:], R from sig[0:32]) and the challenge hash must absorb exactly dom2(variant, context), R bytes, A bytes, message. The four presets are checked as literals. The predicates themselves (group arithmetic, SHA-512) are uninterpreted and not decided.",
          "DESIGN.md §3 E-DT, E-SEQ, §4 C01", "specification formulas and role vocabulary are in props/c01.go; atoms are uninterpreted (their mathematical meaning is C03/C05/C10)", ["edt", "emod"]),
+ "C03": ("sibling cross-checking over typed AST/SSA: dispatch dominance, scalar-multiplication skeleton normal forms, operation-DAG duality, masked-scan shape, clone equality",
+         "Decides structural necessary conditions of 'every scalar-multiplication routine gives the true group result, independent of algorithm/table/representation': every call edge into the vector-only back end is dominated by the supportsVectorizedEdwards test (pairs of vector/generic twins are discovered from the dispatch switches); the two twins of each of the 15 pairs have equal normalised skeletons (recoding and width, loop bounds, doublings between digit uses, guard/operation/lookup polarity per digit, table type); Horner-shape rules per algorithm (radix-16: 4 doublings, all 64 digits; NAF: 1 doubling, positions 255..0; Pippenger: w doublings per column, 2^(w-1) buckets); a width-w NAF only indexes tables with at least 2^(w-2) entries; lookup-table constructors start at P and step by P / 2P for the right count; each Sub* mixed-addition formula is the Add* twin under the y+x/y-x, Z/T substitution; every constant-time Lookup scans all entries with selector j for entry j-1; the four Pornin prologues and the 512/384-bit lattice passes are clones. The serial twins are never executed by the test-suite on an AVX2 machine. The group law itself (formulas, assembly, tables computing point addition) is not decided.",
+         "DESIGN.md §3 E-SIB, §4 C03", "the tested twin is the oracle for the untested one; the numeric group law is not decided", ["esib"]),
 }
 
 PENDING_REASON = "check under construction (DESIGN.md section 7 build order); not claimed yet"
